@@ -894,7 +894,7 @@ pub fn all() -> Vec<Ep> {
         Ep { name: "capabilities", tie: Strong, shape: Token, seeds: "capabilities", call: capabilities },
         Ep { name: "url", tie: None, shape: Token, seeds: "url", call: url },
         Ep { name: "url-expand", tie: Strong, shape: Token, seeds: "url-expand", call: url_expand },
-        Ep { name: "refspec-fetch", tie: None, shape: Token, seeds: "refspec", call: refspec_fetch },
+        Ep { name: "refspec-fetch", tie: Strong, shape: Token, seeds: "refspec", call: refspec_fetch },
         Ep { name: "refspec-push", tie: None, shape: Token, seeds: "refspec", call: refspec_push },
         Ep { name: "refspec-match", tie: Weak, shape: Text, seeds: "refspec-match", call: refspec_match },
         Ep { name: "revspec", tie: None, shape: Token, seeds: "revspec", call: revspec },
